@@ -6,7 +6,7 @@ SPEC = dict(
     cases_thorough=120000,
     level="proof",
     technique="Coq theorems over a Gallina model of crates/sdk/src/utils/fixed.rs and of the rust_decimal 1.37.2 operations it calls (try_from_i128_with_scale, from_i128_with_scale, rescale loops, mantissa, scale, Neg) + differential correspondence with the real SDK functions evaluated inside Coq (vm_compute) + exactness/round-trip oracle on the Rust outputs",
-    text="Round trip integer -> Decimal -> integer is proved exact for every value of magnitude <= 2^96-1 with decimals <= 28 (all six conversion pairs), every returned Decimal is proved to denote num/10^decimals exactly and every way back to return the original or an error, for ALL inputs outside five narrow known-finding classes; the panic condition and the digit loss above 2^96-1 are characterised exactly.",
+    text="Round trip integer -> Decimal -> integer is proved exact for every value of magnitude <= 2^96-1 with decimals <= 28 (all six conversion pairs), every returned Decimal is proved to denote num/10^decimals exactly and every way back to return the original or an error, for ALL inputs outside the known-finding classes (silent digit loss above 2^96-1 / above 28 decimals, two error-not-silent classes); the conversions are proved never to panic in either direction and the digit loss is characterised exactly.",
     level_note="Trusted: Coq kernel + vm_compute; hand model of rust_decimal 1.37.2 (96-bit magnitude, 8-bit scale field, rescale's multiply-while-fits / divide-and-round-on-last-remainder loops, try_from range checks) read from ~/.cargo/registry source and tied to the crate only through the differential check. Back conversions of arbitrary Decimals to fewer decimals round half-up (rust_decimal's documented rescale rule): proved and checked, but outside the property's quantifier (integers and decimals).",
     design_ref="DESIGN.md section 6, C43",
     explanation="6 round-trip kinds (u128/i128 fixed, u64/i64 amount, u128/i128 value at 20 decimals) + 3 back conversions on arbitrary Decimals; decimals 0..255.",
